@@ -165,11 +165,21 @@ def unpack_tolerant(cls, raw: bytes, refuses: bool = False):
     return core.cfdp_tolerant(cls.unpack, raw, refuses=refuses)
 
 
-def _decoded(p, fields, raw: bytes):
+def detached(cls, raw: bytes, fields, p, refuses: bool = False):
+    """the receiver decodes out of its receive buffer (a bytearray) and then reuses that buffer: the decoded PDU keeps
+    the values that were on the wire (core.decode_detached; the view is what the PDU re-packs to and its lengths)"""
+    view = _digest(fields)
+    core.check_detached(lambda b: core.cfdp_tolerant(cls.unpack, b, refuses=refuses), raw, view, cls.__name__ + ".unpack",
+                        expect=view(p), memview=core.accepts_memoryview(cls.unpack))
+
+
+def _decoded(p, fields, raw: bytes, cls=None, refuses: bool = False):
     f = fields(p)
     _isolated(p, fields, f)
     if f["packet_len"] > len(raw):
         raise SelfCheckFailure("decoded PDU is longer than the buffer it was decoded from")
+    if cls is not None:
+        detached(cls, raw, fields, p, refuses)
     f["raw"] = _repack(p)
     return f
 
@@ -234,6 +244,8 @@ def op_fdir_unpack(a):
     _isolated(fd, _fd_fields, f)
     if f["dir_header_len"] > len(raw):
         raise SelfCheckFailure("decoded directive header is longer than the buffer")
+    core.check_detached(FileDirectivePduBase.unpack, raw, _digest(_fd_fields), "FileDirectivePduBase.unpack",
+                        expect=_digest(_fd_fields)(fd), memview=core.accepts_memoryview(FileDirectivePduBase.unpack))
     f["raw"] = _repack(fd)
     return f
 
@@ -283,7 +295,7 @@ def op_ack_pack(a):
 
 def op_ack_unpack(a):
     raw = unhx(a["raw"])
-    return _decoded(unpack_tolerant(AckPdu, raw), _ack_fields, raw)
+    return _decoded(unpack_tolerant(AckPdu, raw), _ack_fields, raw, AckPdu)
 
 
 # ---- Prompt ----
@@ -301,7 +313,7 @@ def op_prompt_pack(a):
 
 def op_prompt_unpack(a):
     raw = unhx(a["raw"])
-    return _decoded(unpack_tolerant(PromptPdu, raw), _prompt_fields, raw)
+    return _decoded(unpack_tolerant(PromptPdu, raw), _prompt_fields, raw, PromptPdu)
 
 
 # ---- Keep Alive ----
@@ -321,7 +333,7 @@ def op_ka_pack_fails(a):
 
 def op_ka_unpack(a):
     raw = unhx(a["raw"])
-    return _decoded(unpack_tolerant(KeepAlivePdu, raw), _ka_fields, raw)
+    return _decoded(unpack_tolerant(KeepAlivePdu, raw), _ka_fields, raw, KeepAlivePdu)
 
 
 def _after_setter(p, cls, fields):
@@ -362,7 +374,7 @@ def op_nak_pack_fails(a):
 
 def op_nak_unpack(a):
     raw = unhx(a["raw"])
-    return _decoded(unpack_tolerant(NakPdu, raw, refuses=True), _nak_fields, raw)
+    return _decoded(unpack_tolerant(NakPdu, raw, refuses=True), _nak_fields, raw, NakPdu, refuses=True)
 
 
 def op_nak_set_segs(a):
